@@ -73,6 +73,8 @@ def make_problem(spec):
         lb, ub, plb, pub = [0.1] * D, [0.7] * D, [0.3] * D, [0.5] * D
     elif box == "declog":
         lb, ub, plb, pub = [0.01] * D, [10.0] * D, [0.1] * D, [1.0] * D
+    elif box == "wide":        # hard box much wider than the plausible box, minimum away from the centre: the mesh is refined far from the origin
+        lb, ub, plb, pub = [-20.0] * D, [20.0] * D, [-8.0] * D, [8.0] * D
     elif box == "unb":
         lb, ub, plb, pub = [-np.inf] * D, [np.inf] * D, [-2.0] * D, [2.0] * D
     elif box == "mixed":
@@ -116,8 +118,10 @@ def make_problem(spec):
 
     offset = float(spec.get("offset", 0.0))     # large baseline: noise that is small RELATIVE to the value is still noise
 
+    scale = float(spec.get("scale", 1.0))
+
     def fun(x):
-        y = base(x) + offset
+        y = scale * base(x) + offset
         if noise in ("auto", "declared"):
             return y + sigma * np.random.randn()
         if noise == "specified":
